@@ -965,6 +965,23 @@ def c10_families(quick, kinds_table):
                     sk.t(" " if i == 0 else ", ")
                     opnd(sk, kd)
             out.append(_reject("c10.%s.kinds_%s" % (mn, t or "none"), build, "reject.kinds"))
+    # the lookup's operand format `n` covers "no operand" and "one immediate" alike; which of the two a mnemonic takes is
+    # decided after the lookup in line_to_instr: both cases for every mnemonic through the whole pipeline (the lookup-level
+    # unit tok_kinds.c mirrors that rule and relies on these queries for it)
+    have = {sk.name for sk in out}
+    for mn in sorted(kinds_table):
+        valid = set(kinds_table[mn])
+        for t in ("", "i"):
+            nm = "c10.%s.kinds_%s" % (mn, t or "none")
+            if t in valid or nm in have:
+                continue
+
+            def build(sk, mn=mn, t=t):
+                sk.t(mn)
+                if t:
+                    sk.t(" ")
+                    opnd(sk, "i")
+            out.append(_reject(nm, build, "reject.kinds"))
     # operand after an immediate
     for mn, tail in (("add", ", {r}"), ("mov", ", {i}"), ("imul", ", {r}"), ("push", ", {r}"), ("rorx", ", {r}")):
         def build(sk, mn=mn, tail=tail):
